@@ -43,6 +43,9 @@ def sha256_kernel(I, R):
     want = sha256_compress_spec(H, M)
     for i in range(8):
         R.bveq(st.v.f[i].b, want[i], "SHA-256 compression (FIPS 180-4 6.2.2): state word %d for every chaining value and block" % i)
+    hn, mn = ["h%d" % i for i in range(8)], ["m%d" % i for i in range(64)]
+    R.bvnative = dict(harness="zz_native_kernel_sha2", op=40, layout=[(n, 4) for n in hn] + [(n, 1) for n in mn],
+                      spec=lambda md: _ints(sha256_compress_spec(_cv(md, hn, 32), _cv(md, mn, 8))))
 
 
 K512 = [
@@ -87,6 +90,9 @@ def sha512_kernel(I, R):
     want = sha512_compress_spec(H, W)
     for i in range(8):
         R.bveq(st.v.f[i].b, want[i], "SHA-512 compression (FIPS 180-4 6.4.2): state word %d" % i)
+    hn, wn = ["h%d" % i for i in range(8)], ["w%d" % i for i in range(16)]
+    R.bvnative = dict(harness="zz_native_kernel_sha2", op=41, layout=[(n, 8) for n in hn + wn],
+                      spec=lambda md: _ints(sha512_compress_spec(_cv(md, hn, 64), _cv(md, wn, 64))))
 
 
 def sha1_compress_spec(H, W16):
@@ -118,6 +124,9 @@ def sha1_kernel(I, R):
     want = sha1_compress_spec(H, W)
     for i in range(5):
         R.bveq(st.v.f[i].b, want[i], "SHA-1 compression (FIPS 180-4 6.1.2): state word %d" % i)
+    hn, wn = ["h%d" % i for i in range(5)], ["w%d" % i for i in range(16)]
+    R.bvnative = dict(harness="zz_native_kernel_sha1", op=42, layout=[(n, 4) for n in hn + wn],
+                      spec=lambda md: _ints(sha1_compress_spec(_cv(md, hn, 32), _cv(md, wn, 32))))
 
 
 RC_KECCAK = [0x0000000000000001, 0x0000000000008082, 0x800000000000808A, 0x8000000080008000, 0x000000000000808B, 0x0000000080000001, 0x8000000080008081, 0x8000000000008009,
@@ -153,6 +162,19 @@ def keccak_kernel(I, R):
         for x in range(5):
             got = B.concat_le([st.v.f[8 * (x + 5 * y) + k].b for k in range(8)])
             R.bveq(got, out[x][y], "Keccak-f[1600] (FIPS 202 3.3): lane (%d,%d)" % (x, y))
+    sn = ["s%d" % i for i in range(200)]
+
+    def kspec(md):
+        S8 = _cv(md, sn, 8)
+        lanes = [[B.concat_le(S8[8 * (x + 5 * y):8 * (x + 5 * y) + 8]) for y in range(5)] for x in range(5)]
+        o = keccak_f_spec(lanes)
+        res = []
+        for y in range(5):
+            for x in range(5):
+                v = o[x][y].cval()
+                res += [(v >> (8 * k)) & 0xff for k in range(8)]
+        return res
+    R.bvnative = dict(harness="zz_native_kernel_sha3", op=43, layout=[(n, 1) for n in sn], spec=kspec)
 
 
 SIGMA = [[0, 1, 2, 3, 4, 5, 6, 7, 8, 9, 10, 11, 12, 13, 14, 15], [14, 10, 4, 8, 9, 15, 13, 6, 1, 12, 0, 2, 11, 7, 5, 3], [11, 8, 12, 0, 5, 2, 15, 13, 10, 14, 3, 6, 7, 1, 9, 4],
@@ -212,7 +234,71 @@ def blake2_kernel(w, last):
             R.bveq(hc.v.f[i].b, want[i], "BLAKE2%s compression F (RFC 7693 3.2), %s block: h[%d]" % ("b" if w == 64 else "s", "last" if last else "non-last", i))
         for i in range(2):
             R.bveq(tc.v.f[i].b, t[i], "BLAKE2 compression leaves the counter alone: t[%d]" % i)
+        hn, tn, mn = ["h%d" % i for i in range(8)], ["t%d" % i for i in range(2)], ["m%d" % i for i in range(16 * nb)]
+
+        def bspec(md):
+            mb8 = _cv(md, mn, 8)
+            mm = [B.concat_le(mb8[nb * i:nb * i + nb]) for i in range(16)]
+            return _ints(blake2_compress_spec(_cv(md, hn, w), _cv(md, tn, w), mm, last, w)) + _ints(_cv(md, tn, w))
+        R.bvnative = dict(harness="zz_native_kernel_blake2", op=44 if w == 64 else 45, layout=[(1 if last else 0, 1)] + [(n, nb) for n in hn + tn] + [(n, 1) for n in mn], spec=bspec)
     return spec
+
+
+RMD_R = [list(range(16)),
+         [7, 4, 13, 1, 10, 6, 15, 3, 12, 0, 9, 5, 2, 14, 11, 8], [3, 10, 14, 4, 9, 15, 8, 1, 2, 7, 0, 6, 13, 11, 5, 12],
+         [1, 9, 11, 10, 0, 8, 12, 4, 13, 3, 7, 15, 14, 5, 6, 2], [4, 0, 5, 9, 7, 12, 2, 10, 14, 1, 3, 8, 11, 6, 15, 13]]
+RMD_RP = [[5, 14, 7, 0, 9, 2, 11, 4, 13, 6, 15, 8, 1, 10, 3, 12], [6, 11, 3, 7, 0, 13, 5, 10, 14, 15, 8, 12, 4, 9, 1, 2],
+          [15, 5, 1, 3, 7, 14, 6, 9, 11, 8, 12, 2, 10, 0, 4, 13], [8, 6, 4, 1, 3, 11, 15, 0, 5, 12, 2, 13, 9, 7, 10, 14],
+          [12, 15, 10, 4, 1, 5, 8, 7, 6, 2, 13, 14, 0, 3, 9, 11]]
+RMD_S = [[11, 14, 15, 12, 5, 8, 7, 9, 11, 13, 14, 15, 6, 7, 9, 8], [7, 6, 8, 13, 11, 9, 7, 15, 7, 12, 15, 9, 11, 7, 13, 12],
+         [11, 13, 6, 7, 14, 9, 13, 15, 14, 8, 13, 6, 5, 12, 7, 5], [11, 12, 14, 15, 14, 15, 9, 8, 9, 14, 5, 6, 8, 6, 5, 12],
+         [9, 15, 5, 11, 6, 8, 13, 12, 5, 12, 13, 14, 11, 8, 5, 6]]
+RMD_SP = [[8, 9, 9, 11, 13, 15, 15, 5, 7, 7, 8, 11, 14, 14, 12, 6], [9, 13, 15, 7, 12, 8, 9, 11, 7, 7, 12, 7, 6, 15, 13, 11],
+          [9, 7, 15, 11, 8, 6, 6, 14, 12, 13, 5, 14, 13, 13, 7, 5], [15, 5, 8, 11, 14, 14, 6, 14, 6, 9, 12, 9, 12, 5, 15, 8],
+          [8, 5, 12, 9, 12, 5, 14, 6, 8, 13, 6, 5, 15, 13, 11, 11]]
+RMD_K = [0, 0x5A827999, 0x6ED9EBA1, 0x8F1BBCDC, 0xA953FD4E]
+RMD_KP = [0x50A28BE6, 0x5C4DD124, 0x6D703EF3, 0x7A6D76E9, 0]
+
+
+def ripemd160_compress_spec(h, X):
+    """Dobbertin, Bosselaers, Preneel: RIPEMD-160 (1996), appendix A pseudo-code"""
+    def f(j, x, y, z):
+        return [x ^ y ^ z, (x & y) | (~x & z), (x | ~y) ^ z, (x & z) | (y & ~z), x ^ (y | ~z)][j]
+    A, Bv, C, D, E = h
+    Ap, Bp, Cp, Dp, Ep = h
+    for j in range(80):
+        g = j // 16
+        T = (A + f(g, Bv, C, D) + X[RMD_R[g][j % 16]] + B.const(RMD_K[g], 32)).rotl(RMD_S[g][j % 16]) + E
+        A, E, D, C, Bv = E, D, C.rotl(10), Bv, T
+        T = (Ap + f(4 - g, Bp, Cp, Dp) + X[RMD_RP[g][j % 16]] + B.const(RMD_KP[g], 32)).rotl(RMD_SP[g][j % 16]) + Ep
+        Ap, Ep, Dp, Cp, Bp = Ep, Dp, Cp.rotl(10), Bp, T
+    return [h[1] + C + Dp, h[2] + D + Ep, h[3] + E + Ap, h[4] + A + Bp, h[0] + Bv + Cp]
+
+
+def ripemd160_kernel(I, R):
+    H = [B.var("h%d" % i, 32) for i in range(5)]
+    M = [B.var("m%d" % i, 8) for i in range(64)]
+    st = Cell(AggV([BvV(x, "u32") for x in H]))
+    msg = Cell(AggV([BvV(x, "u8") for x in M]))
+    f = I.find_fn_re(r"^fn (\S*::)?process_msg_block\(_1: &\[u8\], _2: &mut \[u32; 5\]\)")
+    I.run(f, [RefV(msg, (), (0, 64)), RefV(st, ())])
+    want = ripemd160_compress_spec(H, [B.concat_le(M[4 * i:4 * i + 4]) for i in range(16)])
+    for i in range(5):
+        R.bveq(st.v.f[i].b, want[i], "RIPEMD-160 compression (Dobbertin/Bosselaers/Preneel 1996, app. A): state word %d" % i)
+    hn, mn = ["h%d" % i for i in range(5)], ["m%d" % i for i in range(64)]
+
+    def rspec(md):
+        m8 = _cv(md, mn, 8)
+        return _ints(ripemd160_compress_spec(_cv(md, hn, 32), [B.concat_le(m8[4 * i:4 * i + 4]) for i in range(16)]))
+    R.bvnative = dict(harness="zz_native_kernel_rmd", op=46, layout=[(n, 4) for n in hn] + [(n, 1) for n in mn], spec=rspec)
+
+
+def _cv(model, names, w):
+    return [B.const(model.get(n, 0), w) for n in names]
+
+
+def _ints(bs):
+    return [b.cval() for b in bs]
 
 
 BVSPECS = {
@@ -220,8 +306,59 @@ BVSPECS = {
     "sha512_compress": dict(prop=["C01"], bv=True, fn=sha512_kernel, desc="impl512 digest_block_u64 == FIPS 180-4 SHA-512 compression function"),
     "sha1_compress": dict(prop=["C01"], bv=True, fn=sha1_kernel, desc="sha1::digest_block_u32 == FIPS 180-4 SHA-1 compression function"),
     "keccak_f": dict(prop=["C01"], bv=True, fn=keccak_kernel, desc="sha3::keccak_f == Keccak-f[1600] (FIPS 202)"),
+    "ripemd160_compress": dict(prop=["C01"], bv=True, fn=ripemd160_kernel, desc="ripemd160::process_msg_block == RIPEMD-160 compression function"),
     "blake2b_compress": dict(prop=["C01"], bv=True, fn=blake2_kernel(64, False), desc="blake2::reference::compress_b == RFC 7693 F, non-last block"),
     "blake2b_compress_last": dict(prop=["C01"], bv=True, fn=blake2_kernel(64, True), desc="blake2::reference::compress_b == RFC 7693 F, last block"),
     "blake2s_compress": dict(prop=["C01"], bv=True, fn=blake2_kernel(32, False), desc="blake2::reference::compress_s == RFC 7693 F, non-last block"),
     "blake2s_compress_last": dict(prop=["C01"], bv=True, fn=blake2_kernel(32, True), desc="blake2::reference::compress_s == RFC 7693 F, last block"),
 }
+
+
+def selftest():
+    """the specification side, evaluated on constants, must reproduce known digests (python hashlib) -- guards the transcriptions
+    of the standards above independently of the crate. Returns a list of failures."""
+    import hashlib
+    bad = []
+    def words(bs, n, be=True):
+        return [int.from_bytes(bs[i * n:(i + 1) * n], "big" if be else "little") for i in range(len(bs) // n)]
+    def c(xs, w):
+        return [B.const(x, w) for x in xs]
+    iv = [0x6a09e667, 0xbb67ae85, 0x3c6ef372, 0xa54ff53a, 0x510e527f, 0x9b05688c, 0x1f83d9ab, 0x5be0cd19]
+    out = sha256_compress_spec(c(iv, 32), c(bytes([0x80] + [0] * 63), 8))
+    if b"".join(o.cval().to_bytes(4, "big") for o in out) != hashlib.sha256(b"").digest():
+        bad.append("sha256")
+    blk = bytes([0x61, 0x80] + [0] * 125 + [8])
+    out = sha512_compress_spec(c(IVB, 64), c(words(blk, 8), 64))
+    if b"".join(o.cval().to_bytes(8, "big") for o in out) != hashlib.sha512(b"a").digest():
+        bad.append("sha512")
+    iv1 = [0x67452301, 0xEFCDAB89, 0x98BADCFE, 0x10325476, 0xC3D2E1F0]
+    blk = bytes([0x61, 0x80] + [0] * 61 + [8])
+    out = sha1_compress_spec(c(iv1, 32), c(words(blk, 4), 32))
+    if b"".join(o.cval().to_bytes(4, "big") for o in out) != hashlib.sha1(b"a").digest():
+        bad.append("sha1")
+    st = bytearray(200)
+    st[0] = 0x06
+    st[135] ^= 0x80
+    S8 = c(st, 8)
+    o = keccak_f_spec([[B.concat_le(S8[8 * (x + 5 * y):8 * (x + 5 * y) + 8]) for y in range(5)] for x in range(5)])
+    if b"".join(o[x][y].cval().to_bytes(8, "little") for y in range(5) for x in range(5))[:32] != hashlib.sha3_256(b"").digest():
+        bad.append("keccak_f")
+    h = list(IVB)
+    h[0] ^= 0x01010040
+    out = blake2_compress_spec(c(h, 64), c([0, 0], 64), c([0] * 16, 64), True, 64)
+    if b"".join(o.cval().to_bytes(8, "little") for o in out) != hashlib.blake2b(b"").digest():
+        bad.append("blake2b")
+    h = list(IVS)
+    h[0] ^= 0x01010020
+    out = blake2_compress_spec(c(h, 32), c([3, 0], 32), c(words(b"abc" + bytes(61), 4, False), 32), True, 32)
+    if b"".join(o.cval().to_bytes(4, "little") for o in out) != hashlib.blake2s(b"abc").digest():
+        bad.append("blake2s")
+    try:
+        want = hashlib.new("ripemd160", b"abc").digest()
+        blk = b"abc" + bytes([0x80]) + bytes(52) + (24).to_bytes(8, "little")
+        out = ripemd160_compress_spec(c(iv1, 32), c(words(blk, 4, False), 32))
+        if b"".join(o.cval().to_bytes(4, "little") for o in out) != want:
+            bad.append("ripemd160")
+    except ValueError:
+        pass        # this python's OpenSSL has no ripemd160: transcription then rests on the crate's own test vectors only
+    return bad
